@@ -294,15 +294,22 @@ def random_history(ck: Check):
                     fr.append(cls(pp, r))
         frames.append(fr)
     t0 = rng.choice([0, -3, 2.5])
-    kind = rng.choice(["int", "float"])
+    # "late" and "fine" time axes: strictly increasing times that differ by much less than their
+    # magnitude / than 1e-8 (the end of a long run, a very fine time step)
+    kind = rng.choice(["int", "float", "int", "float", "late", "fine"])
+    if kind == "late":
+        t0 = rng.choice([1e6, 2.0**40, -3e7])
+    elif kind == "fine":
+        t0 = rng.choice([0.0, 1e-9])
     times, t = [], t0
     for _ in range(nfr):
         times.append(t)
-        t = t + (rng.choice([1, 2, 5]) if kind == "int" else rng.uniform(0.1, 2.0))
+        t = t + {"int": rng.choice([1, 2, 5]), "float": rng.uniform(0.1, 2.0), "late": rng.choice([1.0, 0.5, 2.0]),
+                 "fine": rng.choice([1e-9, 2.5e-10])}[kind]
     method = rng.choice(["overlap", "distance"])
     max_dist = rng.choice([None, 0.5, 1.5, rng.uniform(0.1, 3)]) if method == "distance" else None
     desc = {"kind": "random", "dim": dim, "periodic": per if grid is not None else None,
-            "bounds": [list(b) for b in grid.axes_bounds] if grid is not None else None, "style": style}
+            "bounds": [list(b) for b in grid.axes_bounds] if grid is not None else None, "style": style, "time_axis": kind}
     return History(frames, times, grid, method, max_dist, desc)
 
 
@@ -320,6 +327,7 @@ def process(ck: Check, pid: str, h: History, reqs, expect, key):
     ndrops = len(h.ids)
     ck.case(key, nontrivial=ndrops >= 2 and len(h.frames) >= 2)
     ck.count(f"method.{h.method}")
+    ck.count(f"time_axis.{h.desc.get('time_axis', 'lattice')}")
     if any(len(fr) == 0 for fr in h.frames):
         ck.count("with_empty_frame")
     res = run_real(h)
